@@ -13,7 +13,10 @@ FUNCTIONAL = True
 ASSUMPTIONS = ["File::open / metadata().len() / the file system are not modelled: the harness writes real files under a private temp dir and chdir()s into it",
                "digest functions: Python hashlib as reference (see C13)"]
 CONTENTS = [b"", b"x", b"hello\n", b"no newline", b"\x00\x01\xff\xfe", b"$NetBSD: patch-aa,v 1.1 $\n\n--- a\n+++ b\n", b"a\n$NetBSD$\nb\n", b"a\nb $NetBSD$\n", b"\n", b"ab" * 100,
-            b"a\n$$NetBSD$$\nb\n", b"$N$NetBSD\nk\n", b"$5 and $NetBSD: y $\nkeep\n"]
+            b"a\n$$NetBSD$$\nb\n", b"$N$NetBSD\nk\n", b"$5 and $NetBSD: y $\nkeep\n",
+            # the marker straddling the first / second 8192-byte refill of the patch reader's buffer
+            b"a" * (8192 - 3 - 3) + b"\n+ $NetBSD: x $ tail\nkeep\n", b"a" * (8192 - 3 - 6) + b"\n+ $NetBSD: x $ tail\nkeep\n",
+            b"a" * (16384 - 3 - 1) + b"\n+ $NetBSD: x $ tail\nkeep\n", b"a" * (8192 - 3) + b"\n+ $NetBSD$\n"]
 
 
 def model_post(c, o):
@@ -73,8 +76,10 @@ def generate(rng, tier):
                 variants.append(("rcs-line-changed", nm, content.replace(b"$NetBSD", b"$NetBSD: new", 1)))
             for kind, path, body in rng.sample(variants, min(len(variants), 4)):
                 what = rng.choice(["S"] + [str(a) for a in algs] + [str(rng.randrange(6))])
-                cases.append(Case("di.verify", [enc(text), enc(path), "N" if body is None else enc(body), what],
-                                  meta={"kind": kind, "nt": kind != "exact" or b"/" in nm or is_patch}))
+                # one check in five goes through a symbolic link: size and digest are those of the file it points to
+                vop = "di.verifyl" if (body is not None and rng.random() < 0.2) else "di.verify"
+                cases.append(Case(vop, [enc(text), enc(path), "N" if body is None else enc(body), what], mop="di.verify",
+                                  meta={"kind": kind + ("-symlink" if vop == "di.verifyl" else ""), "nt": kind != "exact" or b"/" in nm or is_patch or vop == "di.verifyl"}))
         # a corrupted record: change one recorded hash character / the size
         nm = rng.choice(list(files))
         content, algs, sums, is_patch = files[nm]
@@ -86,7 +91,8 @@ def generate(rng, tier):
         if up != h:
             cases.append(Case("di.verify", [enc(text.replace(h.encode(), up.encode(), 1)), enc(nm), enc(content), str(sums[0][0])], meta={"kind": "bad-record-case", "nt": True}))
         # a recorded hash that is a proper prefix of the digest, the empty hash, or the digest plus one more character
-        for kind2, h2 in (("bad-record-prefix", h[:-1]), ("bad-record-half", h[: len(h) // 2]), ("bad-record-longer", h + "0"), ("bad-record-empty", "")):
+        for kind2, h2 in (("bad-record-prefix", h[:-1]), ("bad-record-half", h[: len(h) // 2]), ("bad-record-longer", h + "0"), ("bad-record-empty", ""),
+                          ("bad-record-nbsp", h + "\u00a0"), ("bad-record-nel", "\u0085" + h), ("bad-record-ls", h + "\u2028"), ("bad-record-vt", h + "\x0b"), ("bad-record-ideo", "\u3000" + h + "\u3000")):
             if rng.random() < 0.6:
                 cases.append(Case("di.verify", [enc(text.replace((") = " + h + "\n").encode(), (") = " + h2 + "\n").encode(), 1)), enc(nm), enc(content), str(sums[0][0])], meta={"kind": kind2, "nt": True}))
         bad2 = text.replace(b") = %d bytes" % len(content), b") = %d bytes" % (len(content) + 1))
@@ -108,4 +114,4 @@ def stats(cases, obsI):
 
 
 def shrinkable(c, ai):
-    return c.op == "di.verify" and ai == 2 and c.args[2] != "N"
+    return c.op in ("di.verify", "di.verifyl") and ai == 2 and c.args[2] != "N"
